@@ -1,7 +1,16 @@
-(* BrokerRun.v — line-protocol adapter for Model/Broker.v (harness glue, executable).
-   broker run <v0|v1> <bridges> <labels>   -> observation line, or "!disabled <i>" *)
+(* BrokerRun.v — line-protocol adapter for Model/Broker.v, Model/BrokerHeap.v (harness glue, executable).
+   broker run <v0|v1> <bridges> <labels>   -> observation line, or "!disabled <i>"
+                                              (start: the built-in default bridge only, as NewBrokerContext leaves it;
+                                               <bridges> other than "-" is installed first: InstallBridgeListProfile;
+                                               label I:<f>=<u>;<f>=<u> installs a list in the middle of a run;
+                                               a client label with fingerprint "-" names no bridge)
+   broker irun <v0|v1> <bridges> <labels>  -> the same through Model/BrokerImpl.v istep (the two array heaps instead of the
+                                              relational pool; the choice written in a client label is ignored and
+                                              computed by heap.Pop), plus heapU=<len> heapR=<len>
+   broker heap <ops>                       -> Model/BrokerHeap.v xstep on an empty SnowflakeHeap, one segment per op:
+                                              <returned id|->/<slice: id:clients:index ...>/<left the heap: id:index ...> *)
 From Coq Require Import List NArith ZArith Bool Arith String.
-From Snow Require Import Lib.Wire Model.Broker.
+From Snow Require Import Lib.Wire Model.Broker Model.BrokerHeap Model.BrokerImpl.
 Import ListNotations.
 Open Scope N_scope.
 
@@ -15,9 +24,18 @@ Definition nat_print (n : natty) : bytes :=
 Definition opt_bind {A B} (o : option A) (f : A -> option B) : option B :=
   match o with Some x => f x | None => None end.
 
+Definition bridge_parse (t : bytes) : option (fpr * url) :=
+  match split_on 61 t with  (* '=' *)
+  | [a; b] => opt_bind (dec_parse a) (fun f => opt_bind (dec_parse b) (fun u => Some (f, u)))
+  | _ => None
+  end.
+
 Definition label_parse (t : bytes) : option label :=
   match split_on COLON t with
   | [k; a] =>
+      if beq k (bs "I") then
+        option_map L_Install (if beq a (bs "-") then Some [] else map_opt bridge_parse (split_on SEMI a))
+      else
       opt_bind (dec_parse_nat a) (fun p =>
         if beq k (bs "FW") then Some (L_FireW p)
         else if beq k (bs "WT") then Some (L_WTake p)
@@ -40,22 +58,19 @@ Definition label_parse (t : bytes) : option label :=
         opt_bind (dec_parse a) (fun sd => opt_bind (nat_parse b) (fun n =>
         opt_bind (dec_parse c) (fun pt => opt_bind (dec_parse d) (fun cl => Some (L_Poll sd n pt cl)))))
       else if beq k (bs "C") then
-        opt_bind (nat_parse a) (fun n => opt_bind (dec_parse b) (fun fp => opt_bind (dec_parse c) (fun o =>
-        if beq d (bs "-") then Some (L_Client n fp o None)
-        else opt_bind (dec_parse_nat d) (fun p => Some (L_Client n fp o (Some p))))))
+        opt_bind (nat_parse a) (fun n =>
+        opt_bind (if beq b (bs "-") then Some None else option_map Some (dec_parse b)) (fun ofp =>
+        opt_bind (dec_parse c) (fun o =>
+        if beq d (bs "-") then Some (L_Client n ofp o None)
+        else opt_bind (dec_parse_nat d) (fun p => Some (L_Client n ofp o (Some p))))))
       else None
-  | _ => None
-  end.
-
-Definition bridge_parse (t : bytes) : option (fpr * url) :=
-  match split_on 61 t with  (* '=' *)
-  | [a; b] => opt_bind (dec_parse a) (fun f => opt_bind (dec_parse b) (fun u => Some (f, u)))
   | _ => None
   end.
 
 Definition presp_print (r : presp) : bytes :=
   match r with
   | PNoMatch => bs "nomatch"
+  | PError => bs "error"
   | PMatch m => bs "match:" ++ dec_print (m_offer m) ++ [COLON] ++ nat_print (m_nat m) ++ [COLON] ++ dec_print (m_url m)
   end.
 Definition cresp_print (r : cresp) : bytes :=
@@ -89,16 +104,64 @@ Definition obs_print (s : state) : bytes :=
          bs "gauge=" ++ zdec_print (gauge s);
          bs "q=" ++ bool_print (quiescent s)]).
 
+(* ---- SnowflakeHeap scripts: u:<id>:<clients>:<ptype> push | o pop | r:<i> remove | f:<i>:<clients> fix ---- *)
+Definition hop_parse (t : bytes) : option hop :=
+  match split_on COLON t with
+  | [k] => if beq k (bs "o") then Some HPop else None
+  | [k; a] => if beq k (bs "r") then opt_bind (dec_parse_nat a) (fun i => Some (HRemove i)) else None
+  | [k; a; b] =>
+      if beq k (bs "f") then opt_bind (dec_parse_nat a) (fun i => opt_bind (dec_parse b) (fun c => Some (HFix i c)))
+      else None
+  | [k; a; b; _] =>
+      if beq k (bs "u") then opt_bind (dec_parse_nat a) (fun i => opt_bind (dec_parse b) (fun c => Some (HPush (i, c))))
+      else None
+  | _ => None
+  end.
+
+Definition dash_if_empty (l : list bytes) : bytes := match l with [] => bs "-" | _ => join [DOT] l end.
+
+Definition sheap_print (ret : option sfx) (h : sheap) : bytes :=
+  (match ret with Some x => dec_print (N.of_nat (x_id x)) | None => bs "-" end)
+  ++ bs "/" ++ dash_if_empty (map (fun x => dec_print (N.of_nat (x_id x)) ++ [COLON] ++ dec_print (snd (x_el x))
+                                          ++ [COLON] ++ zdec_print (x_idx x)) (h_arr h))
+  ++ bs "/" ++ dash_if_empty (map (fun x => dec_print (N.of_nat (x_id x)) ++ [COLON] ++ zdec_print (x_idx x)) (h_out h)).
+
+Fixpoint heap_script (ops : list hop) (h : sheap) : list bytes :=
+  match ops with
+  | [] => []
+  | o :: r => let '(h', ret) := xstep h o in sheap_print ret h' :: heap_script r h'
+  end.
+
 Definition run (args : list bytes) : bytes :=
   match args with
+  | [op; ops] =>
+      if beq op (bs "heap") then
+        match list_parse hop_parse ops with
+        | Some hs => join [SP] (heap_script hs sheap_empty)
+        | None => ERR_BADCASE
+        end
+      else ERR_BADCASE
   | [op; v; br; ls] =>
       if beq op (bs "run") then
         match (if beq v (bs "v0") then Some V0 else if beq v (bs "v1") then Some V1 else None),
-              list_parse bridge_parse br, list_parse label_parse ls with
-        | Some ver, Some brs, Some labels =>
-            match run_idx ver (init brs) labels 0 with
+              (if beq br (bs "-") then Some [] else option_map (fun b => [L_Install b]) (list_parse bridge_parse br)),
+              list_parse label_parse ls with
+        | Some ver, Some inst, Some labels =>
+            match run_idx ver (init builtin_bridges) (inst ++ labels) 0 with
             | inl s => obs_print s
-            | inr i => bs "!disabled " ++ dec_print (N.of_nat i)
+            | inr i => bs "!disabled " ++ dec_print (N.of_nat (i - List.length inst))
+            end
+        | _, _, _ => ERR_BADCASE
+        end
+      else if beq op (bs "irun") then
+        match (if beq v (bs "v0") then Some V0 else if beq v (bs "v1") then Some V1 else None),
+              (if beq br (bs "-") then Some [] else option_map (fun b => [L_Install b]) (list_parse bridge_parse br)),
+              list_parse label_parse ls with
+        | Some ver, Some inst, Some labels =>
+            match irun_idx ver (iinit builtin_bridges) (inst ++ labels) 0 with
+            | inl st => obs_print (i_s st) ++ bs " heapU=" ++ dec_print (N.of_nat (List.length (h_arr (i_hu st))))
+                                           ++ bs " heapR=" ++ dec_print (N.of_nat (List.length (h_arr (i_hr st))))
+            | inr i => bs "!disabled " ++ dec_print (N.of_nat (i - List.length inst))
             end
         | _, _, _ => ERR_BADCASE
         end
